@@ -315,14 +315,16 @@ pub fn run(ctx: &'static Ctx) {
     // several unknown members in one host at once (counters, fixed-size bookkeeping)
     let mut mcases: Vec<(usize, usize, u8)> = Vec::new(); // (host, count, placement 0 = front, 1 = back, 2 = interleaved)
     for hi in 0..hosts.len() {
-        for k in [2usize, 3, 6, 7, 8, 9, 15, 16, 17, 32, 33, 64, 100] {
+        // 18..=24 and 250..=260 carry the member count of every host across the 23/24 and 255/256 head boundaries
+        // (a count narrowed to one byte, a head read with the wrong width); 300 lies well beyond
+        for k in [2usize, 3, 6, 7, 8, 9, 15, 16, 17, 18, 19, 20, 21, 22, 23, 24, 32, 33, 64, 100, 250, 251, 252, 253, 254, 255, 256, 257, 258, 259, 260, 300] {
             for placement in 0..3u8 {
                 mcases.push((hi, k, placement));
             }
         }
     }
     let mr = &mcases;
-    sweep(ctx, "unknown member insertion: many unknown members in one map", mcases.len() as u64, "2..=100 distinct unknown members (mixed value kinds) added to one host map at the front, at the back or interleaved with the known members", move |idx, l| {
+    sweep(ctx, "unknown member insertion: many unknown members in one map", mcases.len() as u64, "2..=300 distinct unknown members (mixed value kinds; the counts cross the 23/24 and 255/256 map-head boundaries of every host) added to one host map at the front, at the back or interleaved with the known members", move |idx, l| {
         let (hi, k, placement) = mr[idx as usize];
         let h = &hr[hi];
         let vals = [V::Bool(true), V::U(7), V::t("v"), V::A(vec![V::U(1), V::t("usb")]), V::M(vec![(V::t("a"), V::B(vec![1, 2, 3]))]), V::Null];
